@@ -43,7 +43,24 @@ for idx in order:
     os.makedirs(od, exist_ok=True)
     kind = op["kind"]
     try:
-        if kind == "write":
+        if kind == "signer_seq":
+            import importlib.util, cbor2
+            from suit_generator.suit_sign_script_base import SignatureAlreadyPresentActions, SuitSignAlgorithms
+            spec = importlib.util.spec_from_file_location("verif_sign_script", op["script"])
+            mod = importlib.util.module_from_spec(spec)
+            spec.loader.exec_module(mod)
+            signer = mod.suit_signer_factory()                     # ONE signer object for the whole sequence
+            for si, st in enumerate(op["steps"]):
+                try:
+                    env = cbor2.loads(open(st["input"], "rb").read())
+                    outv = signer.sign_envelope(env, st["key_name"], st["key_id"], SuitSignAlgorithms(st["alg"]), op["ctx"], op["kms"],
+                                                SignatureAlreadyPresentActions(st["action"]))
+                    with open(os.path.join(od, "step%d.suit" % si), "wb") as fh:
+                        fh.write(cbor2.dumps(outv))
+                except Exception as e:
+                    with open(os.path.join(od, "step%d.suit" % si), "wb") as fh:
+                        fh.write(("exception " + type(e).__name__).encode())
+        elif kind == "write":
             with open(op["path"], "wb") as fh:
                 fh.write(bytes.fromhex(op["content_hex"]))
         elif kind == "create":
@@ -230,6 +247,7 @@ def run(tier, seed):
                                         "expected": "identical output files"})
                         break
         failing += rewrite_histories(ck, tmp)
+        failing += signer_histories(ck, tmp)
         ck.cov["rule"] = ("operations: create from JSON and from YAML of the same generated description, parse (yaml/json, hierarchy on/off), "
                           "mpi generate, cache_create from_payloads, image boot; reference = each in a fresh interpreter; histories = random "
                           "sequences with repetitions and permutations inside one interpreter under PYTHONHASHSEED in {0,1,2,random} and "
@@ -299,6 +317,71 @@ def rewrite_histories(ck, tmp):
                 fails.append({"input": {"order": order, "all_operations": ops, "step": f"create #{j} of {ops[nw + c]['input']} after writing content {w} ({len(contents[w])} bytes)"},
                               "observed": f"create gives {short(got)} after the history, but {short(ref[(w, c)])} for the same description and file in a fresh interpreter",
                               "expected": "identical output files"})
+                break
+    return fails
+
+
+def signer_histories(ck, tmp):
+    """One signer object of the sign script used for several envelopes in a row (what recursive signing and library users
+    do): each result must equal the result of the same call on a fresh signer in a fresh interpreter.  Ed25519 keys:
+    signatures are deterministic, so whole files are compared."""
+    import cbor2
+    import signlib as sl
+    fails = []
+    d = os.path.join(tmp, "signer")
+    os.makedirs(d, exist_ok=True)
+    keys = sl.Keys(os.path.join(d, "keys"), n=1)
+    kn = keys.for_alg("eddsa", 0)
+
+    def envelope(seq):
+        man = cbor2.dumps({1: 1, 2: seq, 3: cbor2.dumps({2: [[b"M", seq]]})})
+        return cbor2.dumps(cbor2.CBORTag(107, {2: cbor2.dumps([cbor2.dumps([-16, hashlib.sha256(cbor2.dumps(man)).digest()])]), 3: cbor2.dumps(man)}))
+
+    paths = {}
+    for name, seq in (("A", 1), ("B", 2), ("C", 3)):
+        paths[name] = os.path.join(d, name + ".suit")
+        with open(paths[name], "wb") as fh:
+            fh.write(envelope(seq))
+    base = {"kind": "signer_seq", "script": sl.sign_script(), "kms": sl.kms_script(), "ctx": keys.dir}
+
+    def step(inp, action, kid=7):
+        return {"input": inp, "key_name": kn, "key_id": kid, "alg": "eddsa", "action": action}
+
+    # a signed A, produced by the tool in a fresh interpreter
+    ops_file = os.path.join(d, "ops0.json")
+    with open(ops_file, "w") as fh:
+        json.dump([dict(base, steps=[step(paths["A"], "error")])], fh)
+    run_worker(tmp, ops_file, [0], os.path.join(d, "mk"))
+    signed = os.path.join(d, "mk", "o0_0", "step0.suit")
+    if not os.path.exists(signed) or open(signed, "rb").read().startswith(b"exception"):
+        return [{"input": {"op": "sign an unsigned envelope with a fresh signer"}, "observed": "no signed envelope produced", "expected": "signed"}]
+    paths["As"] = os.path.join(d, "A_signed.suit")
+    shutil.copy(signed, paths["As"])
+    singles = {"skipAs": step(paths["As"], "skip"), "signB": step(paths["B"], "error", 9), "rmAs": step(paths["As"], "remove-old", 11),
+               "signC": step(paths["C"], "skip", 2 ** 32 - 1), "signA": step(paths["A"], "remove-old", 0)}
+    names = list(singles)
+    seqs = [["skipAs", "signB"], ["signB", "skipAs"], ["rmAs", "signC", "skipAs", "signB"], ["signA", "signA", "skipAs", "signC", "signB"]]
+    if ck.deep:
+        seqs += [[ck.rng.choice(names) for _ in range(6)] for _ in range(8)]
+    ops = [dict(base, steps=[singles[n]]) for n in names] + [dict(base, steps=[singles[n] for n in sq]) for sq in seqs]
+    ops_file = os.path.join(d, "ops.json")
+    with open(ops_file, "w") as fh:
+        json.dump(ops, fh)
+    ref = {}
+    for i, n in enumerate(names):
+        r = run_worker(tmp, ops_file, [i], os.path.join(d, f"fresh{i}"))
+        ref[n] = r.get(str(i), [r])[0].get("step0.suit")
+        ck.count("signer-fresh", n, nontrivial=ref[n] is not None, sample={"op": n})
+    for j, sq in enumerate(seqs):
+        idx = len(names) + j
+        r = run_worker(tmp, ops_file, [idx], os.path.join(d, f"hist{j}"))
+        got = r.get(str(idx), [r])[0]
+        ck.count("signer-history", tuple(sq), nontrivial=True, sample={"one_signer_object": sq})
+        for k, n in enumerate(sq):
+            if got.get(f"step{k}.suit") != ref[n]:
+                fails.append({"input": {"history_on_one_signer_object": sq, "step": k, "operation": singles[n], "key_directory": keys.dir},
+                              "observed": f"step {k} ({n}) on a signer object that already processed {sq[:k]} gives another file than the same call on a fresh signer",
+                              "expected": "identical output (Ed25519 signatures are deterministic)"})
                 break
     return fails
 
